@@ -18,7 +18,11 @@ AMBIG = ['', 'true', 'True', 'false', 'yes', 'no', 'on', 'off', 'y', 'n', '1', '
 NEL = ['a\x85b', '\x85', 'x\x85', '\x85 y', 'line\x85next line']
 DQFOLD = ['a' * 76 + '\x1b' + 'a a', 'b' * 70 + '\x7f' + 'cc dd ee', '\x01' + 'w' * 80 + ' x y',
           'k' * 60 + '\t' + 'k' * 30 + ' tail end']
-BRACES = ['{{', '}}', '{{x}}', 'a{{b}}c', '{{}}', '{{{{', 'x}}y{{z']
+BRACES = ['{{', '}}', '{{x}}', 'a{{b}}c', '{{}}', '{{{{', 'x}}y{{z',
+          # only the closing escape (no '{' at all), only the opening one, and mixtures
+          'end of block }} here', 'a }} b', '}} lead', 'tail }}', '}}}}', 'caf\u00e9 }} \u65e5',
+          'open {{ only', 'x {{ y {{', '{{ lead', 'both {{ and }} here', '}} then {{', ' }} ', '}}\n{{']
+BRACE_KEYS = ['key }} close', '}}', 'k}}', '{{ open key', '{{', 'k }} {{ m', '{{k}}', 'a{{b', '\u00e4 }}']
 WORD_KEYS = ['a', 'b', 'c', 'name', 'id', 'sub', 'k', 'v', 'items', 'Z', 'z']
 ODD_KEYS = ['', 'true', 'false', '1', '0', 'null', '~', ' x ', 'a.b', 'a b', 'a"b', "a'b", '\xe4',
             'a\nb', '#k', '- k', 'k: v', '?', '\u65e5', 'A', 'yes', '1.5', 'x' * 90, '[k]', 'a=b',
@@ -90,7 +94,7 @@ def gen_str(rng, avail, fmt, p_fmt=0.3):
     r = rng.random()
     if r < p_fmt:
         return gen_fmt(rng, avail)
-    if r < p_fmt + 0.06:
+    if r < p_fmt + 0.10:
         return rng.choice(BRACES)
     if 'nel' in SPICE and r < p_fmt + 0.20:
         return rng.choice(NEL)
@@ -121,6 +125,8 @@ def gen_key(rng, avail, fmt, p_fmt=0.12):
     if r < 0.55 + p_fmt:
         return rng.choice(['{kname}', 'k{n}', '{s}', '{{k}}', '{n}']) if 'kname' in avail and 'n' in avail \
             and 's' in avail else rng.choice(WORD_KEYS)
+    if r < 0.55 + p_fmt + 0.07:
+        return rng.choice(BRACE_KEYS)
     if r < 0.97:
         return rng.choice(ODD_KEYS)
     if 'nel' in SPICE and rng.random() < 0.5:
